@@ -172,4 +172,4 @@ def check_one(case, ctx, shared=None):
 
 
 def subchecks():
-    return [HypSub("borda", cases, check, 5000, 60000)]
+    return [HypSub("borda", cases, check, 12000, 150000)]
